@@ -1020,38 +1020,96 @@ func (h *runner) randPert(ents []ent, st pcrbruteforcer.SettingsReproducePCR0, l
 	return p
 }
 
-// ---------- linear search through the hook ----------
+// ---------- the two ACM_POLICY_STATUS strategies through the hooks ----------
+
+// A strategy is given init(), which hands out a (register buffer, context)
+// pair, and check(context, buffer).  The check of ReproduceExpectedPCR0 hashes
+// into and replays on objects owned by the context, so whatever the number of
+// workers a strategy starts: a context is inside check() on one goroutine at a
+// time, and it is used with the buffer it was handed out with.  The probe is an
+// init/check pair that records what every context is offered and notices both.
+type probeCtx struct {
+	buf     []byte
+	busy    int32
+	mu      sync.Mutex
+	offered []uint64
+}
+
+type stratProbe struct {
+	reg        uint64
+	accept     func(uint64) bool
+	mu         sync.Mutex
+	ctxs       []*probeCtx
+	unpaired   int32 // check(ctx, buf): buf is not the buffer init() returned together with ctx
+	concurrent int32 // check() entered with a context that is inside check() on another goroutine
+	foreign    int32 // check() called with something init() did not return
+}
+
+func (p *stratProbe) init() ([]byte, any, error) {
+	pc := &probeCtx{buf: le64(p.reg)}
+	p.mu.Lock()
+	p.ctxs = append(p.ctxs, pc)
+	p.mu.Unlock()
+	return pc.buf, pc, nil
+}
+
+func (p *stratProbe) check(ctx any, data []byte) (bool, error) {
+	pc, ok := ctx.(*probeCtx)
+	if !ok || pc == nil || len(data) < 8 {
+		atomic.AddInt32(&p.foreign, 1)
+		return false, nil
+	}
+	if atomic.CompareAndSwapInt32(&pc.busy, 0, 1) {
+		defer atomic.StoreInt32(&pc.busy, 0)
+	} else {
+		atomic.AddInt32(&p.concurrent, 1)
+	}
+	if &data[0] != &pc.buf[0] {
+		atomic.AddInt32(&p.unpaired, 1)
+	}
+	v := binary.LittleEndian.Uint64(data)
+	pc.mu.Lock()
+	pc.offered = append(pc.offered, v)
+	n := len(pc.offered)
+	pc.mu.Unlock()
+	if n%32 == 0 {
+		runtime.Gosched() // lets the other workers run while this context is marked busy
+	}
+	return p.accept != nil && p.accept(v), nil
+}
+
+// what the protocol of init/check forbids, if it happened
+func (p *stratProbe) protocolProblem() string {
+	switch {
+	case atomic.LoadInt32(&p.foreign) > 0:
+		return "check() was called with a context or a buffer that no init() call returned"
+	case atomic.LoadInt32(&p.unpaired) > 0:
+		return fmt.Sprintf("check() was called %d time(s) with a context and a register buffer that do not come from the same init() call: the state of one worker is used by another", p.unpaired)
+	case atomic.LoadInt32(&p.concurrent) > 0:
+		return fmt.Sprintf("a context handed out by one init() call was inside check() on two goroutines at once (%d time(s)): per-worker state is shared between workers", p.concurrent)
+	}
+	return ""
+}
+
+func (p *stratProbe) sequences() [][]uint64 {
+	var ws [][]uint64
+	for _, pc := range p.ctxs {
+		ws = append(ws, pc.offered)
+	}
+	return ws
+}
 
 func (h *runner) linear(limit, g int, reg uint64) {
 	c := h.c
-	var mu sync.Mutex
-	var nworkers int32
-	seqs := map[int32][]uint64{}
-	init := func() ([]byte, any, error) {
-		id := atomic.AddInt32(&nworkers, 1)
-		mu.Lock()
-		seqs[id] = nil
-		mu.Unlock()
-		return le64(reg), id, nil
-	}
-	check := func(ctx any, data []byte) (bool, error) {
-		id := ctx.(int32)
-		mu.Lock()
-		seqs[id] = append(seqs[id], binary.LittleEndian.Uint64(data))
-		mu.Unlock()
-		return false, nil
-	}
+	p := &stratProbe{reg: reg}
 	c.Begin("linearSearch.Process must offer exactly the decrements below the limit without crashing",
 		"pkg/bootflow/subsystems/trustchains/tpm/pcrbruteforcer/reproduce_expected_pcr0.go: linearSearch.Process",
 		map[string]interface{}{"limit": limit, "GOMAXPROCS": g, "register": fmt.Sprintf("0x%x", reg)})
 	prev := runtime.GOMAXPROCS(g)
-	res, err := pcrbruteforcer.VerifLinearSearch(limit, nil, init, check)
+	res, err := pcrbruteforcer.VerifLinearSearch(limit, nil, p.init, p.check)
 	runtime.GOMAXPROCS(prev)
-	var ws [][]uint64
-	for _, s := range seqs {
-		ws = append(ws, s)
-	}
-	sort.Slice(ws, func(i, j int) bool {
+	ws := p.sequences()
+	sort.SliceStable(ws, func(i, j int) bool {
 		if len(ws[i]) == 0 || len(ws[j]) == 0 {
 			return len(ws[i]) > len(ws[j])
 		}
@@ -1068,6 +1126,10 @@ func (h *runner) linear(limit, g int, reg uint64) {
 	site := "pkg/bootflow/subsystems/trustchains/tpm/pcrbruteforcer/reproduce_expected_pcr0.go: linearSearch.Process"
 	if res != nil || err != nil {
 		c.OracleFail(idx, "linear search with an always-false check returned a register or an error", site, d)
+		return
+	}
+	if pp := p.protocolProblem(); pp != "" {
+		c.OracleFail(idx, "linear search: "+pp, site, d)
 		return
 	}
 	// property: the decrements tried are exactly 0..limit-1, each once
@@ -1113,15 +1175,12 @@ func (h *runner) linearHit(limit, g int, reg uint64, accept []uint64) {
 	for _, a := range accept {
 		acc[a] = true
 	}
-	init := func() ([]byte, any, error) { return le64(reg), nil, nil }
-	check := func(_ any, data []byte) (bool, error) {
-		return acc[reg-binary.LittleEndian.Uint64(data)], nil
-	}
+	p := &stratProbe{reg: reg, accept: func(v uint64) bool { return acc[reg-v] }}
 	c.Begin("linearSearch.Process must return an accepted decrement below the limit without crashing",
 		"pkg/bootflow/subsystems/trustchains/tpm/pcrbruteforcer/reproduce_expected_pcr0.go: linearSearch.Process",
 		map[string]interface{}{"limit": limit, "GOMAXPROCS": g, "register": fmt.Sprintf("0x%x", reg), "accepted_decrements": accept})
 	prev := runtime.GOMAXPROCS(g)
-	res, err := pcrbruteforcer.VerifLinearSearch(limit, nil, init, check)
+	res, err := pcrbruteforcer.VerifLinearSearch(limit, nil, p.init, p.check)
 	runtime.GOMAXPROCS(prev)
 	site := "pkg/bootflow/subsystems/trustchains/tpm/pcrbruteforcer/reproduce_expected_pcr0.go: linearSearch.Process"
 	d := map[string]interface{}{"limit": limit, "GOMAXPROCS": g, "register": fmt.Sprintf("0x%x", reg), "accepted_decrements": accept}
@@ -1133,6 +1192,8 @@ func (h *runner) linearHit(limit, g int, reg uint64, accept []uint64) {
 	switch {
 	case err != nil:
 		c.OracleFail(-1, "linear search returned an error: "+err.Error(), site, d)
+	case p.protocolProblem() != "":
+		c.OracleFail(-1, "linear search: "+p.protocolProblem(), site, d)
 	case res == nil && inside:
 		c.OracleFail(-1, "linear search misses an accepted decrement below the limit", site, d)
 	case res != nil && !acc[reg-res.Raw()]:
@@ -1141,6 +1202,133 @@ func (h *runner) linearHit(limit, g int, reg uint64, accept []uint64) {
 	case res != nil && !inside:
 		d["returned"] = fmt.Sprintf("0x%x", res.Raw())
 		c.OracleFail(-1, fmt.Sprintf("linear search with limit %d under GOMAXPROCS=%d returns decrement %d >= limit", limit, g, reg-res.Raw()), site, d)
+	default:
+		c.OracleOK()
+	}
+}
+
+// order of the bit-flip candidates: fewer flipped bits first, then the sorted
+// bit lists lexicographically
+func maskLess(a, b uint64) bool {
+	if pa, pb := bits.OnesCount64(a), bits.OnesCount64(b); pa != pb {
+		return pa < pb
+	}
+	for a != 0 && b != 0 {
+		la, lb := bits.TrailingZeros64(a), bits.TrailingZeros64(b)
+		if la != lb {
+			return la < lb
+		}
+		a &= a - 1
+		b &= b - 1
+	}
+	return false
+}
+
+const siteComb = "pkg/bootflow/subsystems/trustchains/tpm/pcrbruteforcer/reproduce_expected_pcr0.go: combinatorialSearch.Process"
+
+// combinatorialSearch.Process with a check that rejects everything: what every
+// context is offered.  withCase: the per-context summary goes to Coq as well.
+func (h *runner) comb(limit, g int, reg uint64, withCase bool) {
+	c := h.c
+	p := &stratProbe{reg: reg}
+	in := map[string]interface{}{"MaxACMPolicyCombinatorialDistance": limit, "GOMAXPROCS": g, "register": fmt.Sprintf("0x%x", reg)}
+	c.Begin("combinatorialSearch.Process must offer exactly the registers within the bit-flip distance, every worker with its own state, without crashing", siteComb, in)
+	prev := runtime.GOMAXPROCS(g)
+	res, err := pcrbruteforcer.VerifCombinatorialSearch(limit, nil, p.init, p.check)
+	runtime.GOMAXPROCS(prev)
+	var ws [][]uint64
+	total := 0
+	for _, s := range p.sequences() {
+		if len(s) > 0 {
+			ws = append(ws, s)
+			total += len(s)
+		}
+	}
+	sort.SliceStable(ws, func(i, j int) bool { return maskLess(ws[i][0]^reg, ws[j][0]^reg) })
+	ls := make([]string, len(ws))
+	sizes := make([]int, len(ws))
+	for i, s := range ws {
+		var sum uint64
+		for _, v := range s {
+			sum += v
+		}
+		ls[i] = fmt.Sprintf("(%d, %s, %s, %s)", len(s), gal.U(s[0]), gal.U(s[len(s)-1]), gal.U(sum))
+		sizes[i] = len(s)
+	}
+	d := map[string]interface{}{"MaxACMPolicyCombinatorialDistance": limit, "GOMAXPROCS": g, "register": fmt.Sprintf("0x%x", reg),
+		"init_calls": len(p.ctxs), "contexts_offered_something": len(ws), "offered_per_context": sizes, "offered": total}
+	idx := -1
+	if withCase {
+		idx = c.Add("comb-hook", fmt.Sprintf("CComb %s %d %s %s", gal.Z(int64(limit)), g, gal.U(reg), gal.List(ls)), d, limit > 0)
+	} else {
+		c.Count("comb-hook-wide")
+	}
+	if res != nil || err != nil {
+		c.OracleFail(idx, "combinatorial search with an always-false check returned a register or an error", siteComb, d)
+		return
+	}
+	if pp := p.protocolProblem(); pp != "" {
+		c.OracleFail(idx, "combinatorial search: "+pp, siteComb, d)
+		return
+	}
+	// property: the registers tried are those with at most `limit` bits flipped
+	seen := make(map[uint64]struct{}, total)
+	beyond := 0
+	for _, s := range ws {
+		for _, v := range s {
+			if bits.OnesCount64(v^reg) > limit {
+				beyond++
+			}
+			seen[v] = struct{}{}
+		}
+	}
+	want := 0
+	for k, n := 0, 1; k <= limit && k <= 64; k++ { // sum of C(64, k)
+		want += n
+		n = n * (64 - k) / (k + 1)
+	}
+	d["registers_beyond_distance"] = beyond
+	switch {
+	case beyond > 0:
+		c.OracleFail(idx, fmt.Sprintf("combinatorial search with distance limit %d offers %d register(s) with more bits flipped", limit, beyond), siteComb, d)
+	case len(seen) != want:
+		c.OracleFail(idx, fmt.Sprintf("combinatorial search under GOMAXPROCS=%d: %d of the %d registers within distance %d are never tried", g, want-len(seen), want, limit), siteComb, d)
+	default:
+		c.OracleOK()
+	}
+}
+
+// combinatorial search with a check that accepts a set of bit masks
+func (h *runner) combHit(limit, g int, reg uint64, masks []uint64) {
+	c := h.c
+	acc := map[uint64]bool{}
+	inside := false
+	var ms []string
+	for _, m := range masks {
+		acc[reg^m] = true
+		inside = inside || bits.OnesCount64(m) <= limit
+		ms = append(ms, fmt.Sprintf("0x%x", m))
+	}
+	p := &stratProbe{reg: reg, accept: func(v uint64) bool { return acc[v] }}
+	d := map[string]interface{}{"MaxACMPolicyCombinatorialDistance": limit, "GOMAXPROCS": g, "register": fmt.Sprintf("0x%x", reg), "accepted_bit_masks": ms}
+	c.Begin("combinatorialSearch.Process must return an accepted register within the bit-flip distance, every worker with its own state, without crashing", siteComb, d)
+	prev := runtime.GOMAXPROCS(g)
+	res, err := pcrbruteforcer.VerifCombinatorialSearch(limit, nil, p.init, p.check)
+	runtime.GOMAXPROCS(prev)
+	c.Count("comb-hook-hit")
+	switch {
+	case err != nil:
+		c.OracleFail(-1, "combinatorial search returned an error: "+err.Error(), siteComb, d)
+	case p.protocolProblem() != "":
+		c.OracleFail(-1, "combinatorial search: "+p.protocolProblem(), siteComb, d)
+	case res == nil && inside:
+		c.OracleFail(-1, fmt.Sprintf("combinatorial search under GOMAXPROCS=%d misses an accepted register within the distance limit", g), siteComb, d)
+	case res != nil && !acc[res.Raw()]:
+		d["returned"] = fmt.Sprintf("0x%x", res.Raw())
+		c.OracleFail(-1, "combinatorial search returns a register the check did not accept", siteComb, d)
+	case res != nil && bits.OnesCount64(res.Raw()^reg) > limit:
+		d["returned"] = fmt.Sprintf("0x%x", res.Raw())
+		c.OracleFail(-1, "combinatorial search returns a register beyond the distance limit", siteComb, d)
 	default:
 		c.OracleOK()
 	}
